@@ -256,6 +256,22 @@ def getattr_(interp: Interp, st: St, obj: V, name: str):
         except AttributeError as e:
             yield st, (RAISE, interp.exc_from_instance(st, e))
         return
+    if obj.tag and obj.tag[0] == "super":
+        _, selfv, cls = obj.tag
+        import types as _types
+        mro = type.mro(st.heap[selfv.d].cls)
+        after = mro[mro.index(cls) + 1:] if cls in mro else []
+        for k_ in after:
+            if name in k_.__dict__:
+                static = k_.__dict__[name]
+                if isinstance(static, _types.FunctionType):
+                    b = V("bound", (selfv, name))
+                    b.tag = ("super_fn", static)
+                    yield st, ("ok", b)
+                    return
+                raise Unsupported(f"super().{name} is not a plain method")
+        yield st, (RAISE, interp.make_exception(st, AttributeError, []))
+        return
     if k == "ref":
         h = st.heap[obj.d]
         if isinstance(h, HObj):
@@ -369,7 +385,7 @@ def dict_store(interp, st, h: HDict, key: V, val: V):
             yield st, None
             return
         to_symbolic_dict(interp, st, h)
-    kt = interp.term(st, key)
+    kt = interp.key_term(st, key)
     vt = interp.term(st, val)
     interp.ctx.assume_note("keys stored into a dict built by adaptix are hashable")
     present = z3.Select(h.has, kt)
@@ -432,7 +448,7 @@ def getitem(interp: Interp, st: St, obj: V, key: V):
                 h.pairs is None or key.kind != "const" or not all(kk.kind == "const" for kk, _ in h.pairs)):
             if h.pairs is not None:
                 to_symbolic_dict(interp, st, h)
-            kt = interp.term(st, key)
+            kt = interp.key_term(st, key)
             interp.ctx.assume_note("keys looked up in a dict are hashable")
             for s, hb in interp.fork_on(st, z3.Select(h.has, kt)):
                 if hb:
@@ -590,7 +606,7 @@ def m_get(interp, st, selfv, args, kwargs):
     h = st.heap[selfv.d]
     default = args[1] if len(args) > 1 else const(None)
     if isinstance(h, HDict) and h.pairs is None:
-        kt = interp.term(st, args[0])
+        kt = interp.key_term(st, args[0])
         yield st, ("ok", V("sym", t=z3.If(z3.Select(h.has, kt), z3.Select(h.vals, kt), interp.term(st, default))))
         return
     if isinstance(h, HDict) and h.pairs is not None and args[0].kind == "const" and \
@@ -784,7 +800,7 @@ def contains(interp: Interp, st: St, x: V, coll: V, negate=False):
                     yield st, ("ok", const(bool(negate)))
                     return
                 to_symbolic_dict(interp, st, h)
-            yield out(st, z3.Select(h.has, interp.term(st, x)))
+            yield out(st, z3.Select(h.has, interp.key_term(st, x)))
             return
         if isinstance(h, HList) and h.items is not None:
             xt = interp.term(st, x)
